@@ -390,6 +390,11 @@ func (g *genStorage) livePosts(w *World, f int) int {
 func providerHost(rng *Rng, p, dom int) string {
 	switch rng.Intn(9) {
 	case 0, 1, 2, 3:
+		if p%4 == 3 {
+			// host names are case-insensitive to operators but not to the chain: a mixed-case
+			// spelling of the shared domain (seeded change Y14-A)
+			return fmt.Sprintf("https://Node%d.Dom%d.Example", p, dom)
+		}
 		return fmt.Sprintf("https://node%d.dom%d.example", p, dom)
 	case 4:
 		return fmt.Sprintf("https://prov%d.io", p)
